@@ -34,6 +34,7 @@ UNTYPED = L.UNTYPED
 SIDE = L.SIDE
 ALIAS = L.ALIAS
 STAR = L.STAR
+NLJOIN = L.NLJOIN
 DIVERGE = 'c19-analysis-diverges-on-growing-tuple-types'
 
 
@@ -74,12 +75,12 @@ def corpus():
     return out
 
 
-def one_program(src, vecs, decline=None):
+def one_program(src, vecs, decline=None, local_args_unknown=False):
     """-> dict(prog, runs, an | None, diverged, fails, log)"""
     prog = L.Prog(src)
     runs = L.instrument_and_run(prog, vecs)
     log = []
-    res = L.make_resolver(prog, runs, decline=decline, log=log)
+    res = L.make_resolver(prog, runs, decline=decline, log=log, local_args_unknown=local_args_unknown)
     try:
         an = L.analyze(prog, res)
     except L.Diverged:
@@ -144,6 +145,7 @@ def check(run):
     vlib.standard_proof_step(run, ['Types/InferCheck.vo', 'Types/InferCertProofs.vo'])
     rnd = random.Random(run.seed * 104729 + 19)
     items = [(name, src, vecs, None, 'corpus') for name, src, vecs in corpus()]
+    lau_rnd = random.Random(run.seed + 4242)
     for i in range(nprog):
         c = rnd.random()
         if c < 0.45:
@@ -159,7 +161,7 @@ def check(run):
     cases = []
     meta = {}
     unexplained = []
-    known = {UNTYPED: 0, SIDE: 0, ALIAS: 0, STAR: 0, DIVERGE: 0}
+    known = {UNTYPED: 0, SIDE: 0, ALIAS: 0, STAR: 0, NLJOIN: 0, DIVERGE: 0}
     hist = {}
     seen_src = set()
     stats = {'programs': 0, 'runs': 0, 'runs_raising': 0, 'annotated_nodes': 0, 'events_checked': 0,
@@ -168,8 +170,11 @@ def check(run):
         if src in seen_src:
             continue
         seen_src.add(src)
+        # a truthful resolver usually cannot know the parameters of a LOCAL function: unknown in the corpus and
+        # in half of the generated programs, observed types in the other half
+        lau = stream == 'corpus' or lau_rnd.random() < 0.5
         try:
-            r = one_program(src, vecs, decline=dec[0] if dec else None)
+            r = one_program(src, vecs, decline=dec[0] if dec else None, local_args_unknown=lau)
         except Exception as e:   # noqa
             unexplained.append(('the analysis raised %s: %s' % (type(e).__name__, str(e)[:200]), src, vecs, None))
             continue
@@ -192,11 +197,11 @@ def check(run):
             continue
         stats['annotated_nodes'] += len(r['an'].types)
         for f in r['fails']:
-            if f['cause'] in (UNTYPED, SIDE, ALIAS, STAR):
+            if f['cause'] in (UNTYPED, SIDE, ALIAS, STAR, NLJOIN):
                 known[f['cause']] += 1
                 run.violation(describe(f), {}, classify=f['cause'])
             else:
-                unexplained.append((describe(f), src, vecs, dict(f, resolver_declines=dec[1] if dec else [])))
+                unexplained.append((describe(f), src, vecs, dict(f, resolver_declines=dec[1] if dec else [], local_args_unknown=lau)))
         if stats['programs'] % 37 == 1:
             run.sample({'program': src, 'argument_vectors': vecs, 'stream': stream,
                         'resolver_declines': dec[1] if dec else [],
@@ -290,7 +295,8 @@ def replay(path):
     vecs = rp.get('argument_vectors') or '[[1, 1, 2]]'
     kinds = (rp.get('failure') or {}).get('resolver_declines') or []
     r = one_program(src, ast.literal_eval(vecs) if isinstance(vecs, str) else vecs,
-                    decline=(lambda kind: kind in kinds) if kinds else None)
+                    decline=(lambda kind: kind in kinds) if kinds else None,
+                    local_args_unknown=bool((rp.get('failure') or {}).get('local_args_unknown')))
     print(src)
     if r['diverged']:
         print('type inference did not reach a fixed point')
